@@ -57,6 +57,7 @@ type wtf struct {
 	fns     []*ssa.Function
 	carrier map[*ssa.Function]map[int]bool
 	W       map[*ssa.Function]map[int]bool
+	WB      map[*ssa.Function]map[int]bool
 	NSF     map[*ssa.Function]bool
 	NSS     map[*ssa.Function]map[string]bool // names of non-storage error origins (sentinel names, or "*" for fresh/unknown)
 	subs    map[string][]*ssa.Function       // message kind -> subscribed ExecuteMessage implementations
@@ -104,7 +105,7 @@ func slotName(fn *ssa.Function, i int) string {
 }
 
 func newWTF(p *Prog) *wtf {
-	w := &wtf{p: p, carrier: map[*ssa.Function]map[int]bool{}, W: map[*ssa.Function]map[int]bool{}, NSF: map[*ssa.Function]bool{}, NSS: map[*ssa.Function]map[string]bool{}, subs: map[string][]*ssa.Function{}, storageOnly: map[string]string{},
+	w := &wtf{p: p, carrier: map[*ssa.Function]map[int]bool{}, W: map[*ssa.Function]map[int]bool{}, WB: map[*ssa.Function]map[int]bool{}, NSF: map[*ssa.Function]bool{}, NSS: map[*ssa.Function]map[string]bool{}, subs: map[string][]*ssa.Function{}, storageOnly: map[string]string{},
 		DF: map[*ssa.Function]map[int][]*dfWitness{}, impls: map[string][]*ssa.Function{}, origMemo: map[ssa.Value][]origin{}}
 	for _, fn := range p.ModFuncs {
 		if fn.Blocks == nil {
@@ -473,6 +474,15 @@ func (w *wtf) run() {
 					changed = true
 				}
 			}
+			for k := range sum.WB {
+				if w.WB[fn] == nil {
+					w.WB[fn] = map[int]bool{}
+				}
+				if !w.WB[fn][k] {
+					w.WB[fn][k] = true
+					changed = true
+				}
+			}
 			for k, wits := range sum.DF {
 				if w.DF[fn] == nil {
 					w.DF[fn] = map[int][]*dfWitness{}
@@ -561,6 +571,7 @@ func (w *wtf) sumFor(c ssa.CallInstruction, g *ssa.Function) (W map[int]bool, ns
 // fnSummary is the (possibly specialised) effect summary of one function.
 type fnSummary struct {
 	W   map[int]bool
+	WB  map[int]bool // slots through whose context the per-block context is mutated (never rolled back)
 	NSF bool
 	NSS map[string]bool
 	DF  map[int][]*dfWitness
@@ -675,7 +686,7 @@ func (w *wtf) pubSummary(kind string) *fnSummary {
 	if s, ok := w.pubMemo[kind]; ok {
 		return s
 	}
-	out := &fnSummary{W: map[int]bool{}, NSS: map[string]bool{}, DF: map[int][]*dfWitness{}}
+	out := &fnSummary{W: map[int]bool{}, WB: map[int]bool{}, NSS: map[string]bool{}, DF: map[int][]*dfWitness{}}
 	w.pubMemo[kind] = out // guards recursion
 	var writers, failers []*ssa.Function
 	subs := w.subs[kind]
@@ -694,6 +705,9 @@ func (w *wtf) pubSummary(kind string) *fnSummary {
 		if sum.W[1] {
 			out.W[0] = true
 			writers = append(writers, g)
+		}
+		if sum.WB[1] {
+			out.WB[0] = true
 		}
 		if sum.NSF {
 			failers = append(failers, g)
@@ -717,7 +731,7 @@ func (w *wtf) pubSummary(kind string) *fnSummary {
 // compute derives the summary of fn from the current global maps, on the CFG
 // with the given edges removed.
 func (w *wtf) compute(fn *ssa.Function, cut *Cut) fnSummary {
-	sum := fnSummary{W: map[int]bool{}, NSS: map[string]bool{}, DF: map[int][]*dfWitness{}}
+	sum := fnSummary{W: map[int]bool{}, WB: map[int]bool{}, NSS: map[string]bool{}, DF: map[int][]*dfWitness{}}
 	if cut == nil {
 		cut = NewCut()
 	}
@@ -761,6 +775,30 @@ func (w *wtf) compute(fn *ssa.Function, cut *Cut) fnSummary {
 				for _, o := range w.writeOrigins(x) {
 					if o.kind == oSlot {
 						sum.W[o.slot] = true
+						if _, ok := cur[o.slot]; !ok {
+							cur[o.slot] = ins
+						}
+					}
+				}
+				for _, o := range w.blockCtxCallOrigins(x) {
+					if !handlerLayer(fn) {
+						break
+					}
+					sum.WB[o.slot] = true
+					if _, ok := cur[o.slot]; !ok {
+						cur[o.slot] = ins
+					}
+				}
+			case *ssa.MapUpdate, *ssa.Store:
+				// the per-block context (ctx.BlockContext()) is shared by all transactions of the block and is
+				// not covered by any transaction overlay: mutating an object held in it is a write that no
+				// failure rolls back
+				if opaque {
+					continue
+				}
+				for _, o := range w.blockCtxWriteOrigins(ins) {
+					if o.kind == oSlot && handlerLayer(fn) {
+						sum.WB[o.slot] = true
 						if _, ok := cur[o.slot]; !ok {
 							cur[o.slot] = ins
 						}
@@ -916,6 +954,111 @@ func (w *wtf) writeOrigins(c ssa.CallInstruction) []origin {
 		}
 	}
 	return out
+}
+
+const fnBlockCtx = "consensus/cometbft/api.(*Context).BlockContext"
+
+// blockCtxCall: the ctx.BlockContext() call that v (a map, pointer or address) was obtained from, through
+// Get(key), type assertions, field/element addressing and loads; nil if v does not come from the block context.
+func blockCtxCall(v ssa.Value, d int) *ssa.Call {
+	if d > 10 || v == nil {
+		return nil
+	}
+	switch x := v.(type) {
+	case *ssa.Call:
+		if calleeName(x) == fnBlockCtx {
+			return x
+		}
+		if strings.HasPrefix(calleeName(x), "consensus/cometbft/api.(*BlockContext).") {
+			return blockCtxCall(allArgs(x)[0], d+1)
+		}
+	case *ssa.TypeAssert:
+		return blockCtxCall(x.X, d+1)
+	case *ssa.Extract:
+		return blockCtxCall(x.Tuple, d+1)
+	case *ssa.FieldAddr:
+		return blockCtxCall(x.X, d+1)
+	case *ssa.IndexAddr:
+		return blockCtxCall(x.X, d+1)
+	case *ssa.UnOp:
+		return blockCtxCall(x.X, d+1)
+	case *ssa.ChangeType:
+		return blockCtxCall(x.X, d+1)
+	case *ssa.MakeInterface:
+		return blockCtxCall(x.X, d+1)
+	case *ssa.Phi:
+		for _, e := range x.Edges {
+			if c := blockCtxCall(e, d+1); c != nil {
+				return c
+			}
+		}
+	}
+	return nil
+}
+
+// handlerLayer: block-context writes are tracked in the applications (transaction and message handlers and what they
+// call); the multiplexer's own block-context bookkeeping (provable events, system transactions, gas accountant) is
+// the block's result by design.
+func handlerLayer(fn *ssa.Function) bool {
+	return strings.HasPrefix(short(fpkgPath(fn)), "consensus/cometbft/apps/")
+}
+
+// untx resolves transaction origins to the slots of their outermost parents.
+func (w *wtf) untx(os []origin) []origin {
+	var out []origin
+	var resolve func(os []origin, d int)
+	resolve = func(os []origin, d int) {
+		for _, o := range os {
+			if o.kind == oTx && d < 8 {
+				resolve(w.origins(allArgs(o.tx)[0]), d+1)
+			} else if o.kind == oSlot {
+				out = append(out, o)
+			}
+		}
+	}
+	resolve(os, 0)
+	return out
+}
+
+// blockCtxCallOrigins: the (de-transactionalised) origins through which call c's callees mutate the block context.
+func (w *wtf) blockCtxCallOrigins(c ssa.CallInstruction) []origin {
+	var out []origin
+	if calleeName(c) == ifPublish {
+		if args := allArgs(c); len(args) > 1 && w.pubSummary(publishKind(c)).WB[0] {
+			out = append(out, w.untx(w.origins(args[1]))...)
+		}
+		return out
+	}
+	fns, cl := w.callees(c)
+	for _, g := range fns {
+		for k := range w.WB[g] {
+			if a := argForSlot(c, g, cl, k); a != nil {
+				out = append(out, w.untx(w.argOrigins(c, a))...)
+			}
+		}
+	}
+	return out
+}
+
+// blockCtxWriteOrigins: if ins stores into an object held in the block context, the origins of the context it was
+// reached through — with transaction contexts resolved to their parents, since NewTransaction isolates state and
+// events only.
+func (w *wtf) blockCtxWriteOrigins(ins ssa.Instruction) []origin {
+	var target ssa.Value
+	switch x := ins.(type) {
+	case *ssa.MapUpdate:
+		target = x.Map
+	case *ssa.Store:
+		if _, local := x.Addr.(*ssa.Alloc); local {
+			return nil
+		}
+		target = x.Addr
+	}
+	bc := blockCtxCall(target, 0)
+	if bc == nil {
+		return nil
+	}
+	return w.untx(w.origins(allArgs(bc)[0]))
 }
 
 // callNSF: may call c return a non-storage error?
